@@ -44,6 +44,7 @@ def public_constants():
     grab("weightRejectionThreshold", lambda: _fr(regression.WEIGHT_REJECTION_THRESHOLD))
     grab("waitSleepTime", lambda: _fr(wait_for_user.WaitForUserRhythm.sleep_time))
     grab("cliDefaults", cli_defaults)
+    grab("serverDefaults", server_defaults)
     grab("calls", lambda: {n: getattr(calls, n) for n in
                            ["LOOK_TO", "GO", "BOB", "SINGLE", "THATS_ALL", "ROUNDS", "STAND"]})
     return out
@@ -72,6 +73,20 @@ def cli_defaults():
     if set(seen) != set(CLI_DEFAULT_OPTS):
         raise ValueError(f"options not found on the parser: {sorted(set(CLI_DEFAULT_OPTS) - set(seen))}")
     return {k: (_fr(v) if isinstance(v, float) else v) for k, v in seen.items()}
+
+
+def server_defaults():
+    """What the running `main(["server-mode", ...])` hands to `create_rhythm` and `Bot` (by position)."""
+    from harness import climain
+    r = climain.run(["server-mode", "763451928", "--port", "5000", "--id", "3"])
+    if r.get("outcome") != "built":
+        raise ValueError(f"server-mode did not reach the construction of the Bot: {r.get('outcome')}")
+    rh = list(r["rhythm_args"].values())
+    bot = list(r["bot"].values())
+    return {"peal_speed": rh[0], "inertia": _fr(rh[1]) if isinstance(rh[1], float) else rh[1], "max_bells_in_dataset": rh[2],
+            "handstroke_gap": _fr(rh[3]) if isinstance(rh[3], float) else rh[3], "use_wait": rh[4],
+            "initial_inertia": _fr(rh[5]) if isinstance(rh[5], float) else rh[5],
+            "use_up_down_in": bot[2], "stop_at_rounds": bot[3], "call_comps": bot[4], "user_name": bot[6]}
 
 
 def _mini_session(gen_spec, up_down_in, end=1012.0):
